@@ -115,6 +115,8 @@ def _c15_plan(tier, verif_seed):
                 plan.append((kk, ["data", pos, m]))
         for variant in ("prefix", "case", "empty", "unicode", "suffix", "other_pair"):
             plan.append((kk, ["pass", variant]))
+        for seqk in ("wrong_then_right", "right_then_wrong", "right_twice", "wrong_wrong_right"):
+            plan.append((kk, ["seq", seqk]))
         plan.append((kk, ["trunc_data", 1]))
         plan.append((kk, ["trunc_wrap", 1]))
     return plan
@@ -147,6 +149,33 @@ def _run_c15(case, world, log, v):
         pw = {"prefix": pw[:-1], "case": pw.swapcase() if pw.swapcase() != pw else pw + "A", "empty": "", "unicode": pw + "é",
               "suffix": pw + " ", "other_pair": "other-%d" % ((cfg["which"] + 1) % max(cfg["npairs"], 2)) if cfg["npairs"] > 1 else "other-9"}[t[1]]
     world.faults_fired["tamper_" + t[0]] += 0 if t[0] == "none" else 1
+    if t[0] == "seq":
+        # several unlock attempts on one parsed object: results may depend only on the passphrase given to each call
+        vm = VMX.parse(vmx_text)
+        attempts = {"wrong_then_right": ["x" + pw, pw], "right_then_wrong": [pw, pw + "x"], "right_twice": [pw, pw],
+                    "wrong_wrong_right": ["", pw[:-1] + "Z", pw]}[t[1]]
+        for n_att, att in enumerate(attempts):
+            before = copy.deepcopy(vm.attr)
+            raised = None
+            try:
+                with metered(STEP_LIMIT, "loop"):
+                    vm.unlock_with_phrase(att)
+            except BudgetExceeded:
+                return v("budget", "unlock did not finish within the step budget"), cfg
+            except Exception as e:
+                raised = e
+            log.add("reader", "unlock-seq", [case["k"], t[1], n_att], "raised:" + type(raised).__name__ if raised else "ok")
+            if att == pw:
+                if raised is not None:
+                    return v("sequence-right-rejected", f"attempt {n_att + 1} of {t[1]} used the correct passphrase and raised {type(raised).__name__}: {raised}"), cfg
+                if vm.attr != expected:
+                    return v("sequence-differs", f"attempt {n_att + 1} of {t[1]}: unlocked configuration differs"), cfg
+            else:
+                if raised is None:
+                    return v("sequence-wrong-accepted", f"attempt {n_att + 1} of {t[1]} used a wrong passphrase and succeeded"), cfg
+                if vm.attr != before:
+                    return v("partial-update", f"attempt {n_att + 1} of {t[1]} raised but the visible configuration changed"), cfg
+        return None, cfg
     vm = VMX.parse(vmx_text)
     before = copy.deepcopy(vm.attr)
     raised = None
